@@ -5,6 +5,7 @@ import (
 	"context"
 	"fmt"
 	"math/rand"
+	"sync/atomic"
 	"time"
 
 	"github.com/ava-labs/avalanchego/ids"
@@ -19,7 +20,7 @@ func init() {
 	register(&simk.Prop{
 		ID:    "C35",
 		Level: "exploration",
-		Rule: "seeded networks of 3..4 complete DSMR nodes; one validator (the victim) is unreachable while 1..4 chunks (1..3 transactions each) are built and certified by the others (BLS signature aggregation over the real p2p handlers, quorum (N-1)/N: every reachable validator signs), so it holds none of them; a seeded subset is then handed to it locally; a block referencing all certificates is built by a producer, verified by every node and accepted; the victim's chunk requests are answered by its peers through a fault plan drawn before the run (honest, error, garbage bytes, another valid chunk, truncated bytes; honest after <=6 faulty answers); " +
+		Rule: "seeded networks of 3..4 complete DSMR nodes; one validator (the victim) is unreachable while 1..4 chunks (1..3 transactions each) are built and certified by the others (BLS signature aggregation over the real p2p handlers, quorum (N-1)/N: every reachable validator signs), so it holds none of them; a seeded subset is then handed to it locally; in 35% of the runs every chunk comes from one producer, the per-producer pending-weight limit is lowered to exactly that producer's pending weight and the victim additionally holds 1..2 chunks the producer signed for it alone (delivered through the victim's real signature-request logic); a block referencing all certificates is built by a producer, verified by every node and accepted; the victim's chunk requests are answered by its peers through a fault plan drawn before the run (honest, error, garbage bytes, another valid chunk, truncated bytes; honest after <=6 faulty answers); " +
 			"oracle: Accept succeeds on every node and returns exactly the chunks the block's certificates reference, in certificate order, byte-identical to what the producer stored, whether a chunk was local or fetched. non-trivial = >=1 chunk fetched remotely and >=1 local on the victim; distinct = scenario hashes",
 		Exec:        c35,
 		Real:        []string{"x/dsmr.Node (BuildChunk, BuildBlock, Verify, Accept)", "x/dsmr.ChunkStorage + ChunkVerifier", "GetChunkHandler, ChunkSignatureRequestVerifier + acp118 handler/aggregator, certificate gossip handler", "typed p2p clients over avalanchego's in-memory p2p test network", "validity window over chunk certificates", "BLS signing/verification"},
@@ -58,12 +59,23 @@ func c35(r *simk.Run) *simk.Violation {
 		}
 		plans[i] = chunkPlan{producer: p, txs: 1 + c.Intn(3), local: c.Bool(0.4)}
 	}
+	// rate-limited mode: every chunk comes from one producer, the per-producer pending-weight limit is set
+	// to exactly what that producer has pending, and the victim additionally holds chunks the producer
+	// handed to it alone (so its own pending weight for that producer is at or above the others')
+	limited := c.Bool(0.35)
+	nExtra := 0
+	if limited {
+		for i := range plans {
+			plans[i].producer = plans[0].producer
+		}
+		nExtra = 1 + c.Intn(2)
+	}
 	nFaulty := c.Intn(7)
 	fp := &faultPlan{}
 	for i := 0; i < nFaulty; i++ {
 		fp.behaviour = append(fp.behaviour, c.Intn(nFaults))
 	}
-	sample := map[string]any{"nodes": nNodes, "victim": victim, "chunks": fmt.Sprintf("%+v", plans), "fault_plan": func() []string {
+	sample := map[string]any{"nodes": nNodes, "victim": victim, "rate_limited": limited, "extra_chunks_on_victim_only": nExtra, "chunks": fmt.Sprintf("%+v", plans), "fault_plan": func() []string {
 		var o []string
 		for _, b := range fp.behaviour {
 			o = append(o, fNames[b])
@@ -76,7 +88,10 @@ func c35(r *simk.Run) *simk.Violation {
 	s.Run(r.T, func() {
 		ctx := context.Background()
 		rand.Seed(12345) //nolint:staticcheck // the node picks the peer to ask with the global source
-		nodes, err := newNet(ctx, r.T, netCfg{N: nNodes, Window: 100_000, QuorumNum: uint64(nNodes - 1), QuorumDen: uint64(nNodes), NoSigFrom: map[int]bool{victim: true}, Plan: fp, PlanForNode: victim, Genesis: dsmr.Block{}})
+		fp.stuck = make(chan struct{}) // created inside the bubble
+		weight := &atomic.Uint64{}
+		weight.Store(1 << 40)
+		nodes, err := newNet(ctx, r.T, netCfg{N: nNodes, Window: 100_000, QuorumNum: uint64(nNodes - 1), QuorumDen: uint64(nNodes), NoSigFrom: map[int]bool{victim: true}, Plan: fp, PlanForNode: victim, Genesis: dsmr.Block{}, Weight: weight})
 		if err != nil {
 			fail("harness", "network: %v", err)
 			return
@@ -117,6 +132,34 @@ func c35(r *simk.Run) *simk.Violation {
 			if ref[cert.ChunkID] == nil {
 				fail("harness", "no node holds chunk %s", cert.ChunkID)
 				return
+			}
+		}
+		if limited {
+			// the limit now equals what the producer has pending everywhere else
+			var sum uint64
+			for _, b := range ref {
+				sum += uint64(len(b))
+			}
+			weight.Store(sum)
+			// chunks the producer signed and sent to the victim alone, through the victim's real
+			// signature-request logic (which applies the rate limit to what it signs)
+			prod := nodes[plans[0].producer]
+			stored := 0
+			for k := 0; k < nExtra; k++ {
+				txn++
+				ch, err := dsmr.VerifSignChunk[dsmrtest.Tx](dsmr.UnsignedChunk[dsmrtest.Tx]{Producer: prod.ID, Expiry: int64(1000 * (40 + k)),
+					Txs: []dsmrtest.Tx{{ID: ids.Empty.Prefix(uint64(txn)), Expiry: 50_000, Sponsor: codec.Address{byte(txn)}}}}, networkID, chainID, prod.PK, prod.Signer)
+				if err != nil {
+					fail("harness", "signing an extra chunk: %v", err)
+					return
+				}
+				if appErr := nodes[victim].SigVerifier.Verify(ctx, nil, ch.VerifBytes()); appErr == nil {
+					stored++
+				}
+			}
+			sample["extra_chunks_stored_on_victim"] = stored
+			if stored > 0 {
+				s.Probe("victim_pending_weight_at_limit")
 			}
 		}
 		// some chunks reach the victim before the block (it signed them after all, or fetched them earlier)
@@ -171,6 +214,15 @@ func c35(r *simk.Run) *simk.Violation {
 			}()
 			select {
 			case <-done:
+			case <-fp.stuck:
+				fp.mu.Lock()
+				lg := append([]string{}, fp.log...)
+				fp.mu.Unlock()
+				if len(lg) > 24 {
+					lg = append(lg[:12:12], append([]string{"..."}, lg[len(lg)-6:]...)...)
+				}
+				fail("accept-does-not-return", "node %d: Accept keeps requesting chunks although its peers have served %d honest answers after the last faulty one; answers=%v", i, honestAnswersBound, lg)
+				return
 			case <-time.After(10 * time.Minute):
 				fp.mu.Lock()
 				lg := append([]string{}, fp.log...)
